@@ -116,7 +116,8 @@ func vhC02Url(engine int, maxSeg int) {
 			}
 		}
 		if symxBool("param" + string(rune('0'+i))) {
-			s += "{" + symxString("p"+string(rune('0'+i)), 1, 1, "xy") + "}"
+			// parameter names: a letter, optionally followed by a letter, digit, hyphen or underscore
+			s += "{" + symxString("p"+string(rune('0'+i)), 1, 1, "xy") + symxString("q"+string(rune('0'+i)), 0, 1, "y2-_") + "}"
 		} else {
 			s += symxString("l"+string(rune('0'+i)), 1, 1, "ab")
 		}
@@ -127,8 +128,15 @@ func vhC02Url(engine int, maxSeg int) {
 	symxAssume(s != "")
 	doc := vhDocPath(s)
 	// a path the spec can show must start with '/': the 3.0 validation rejects others (gate assumption of C01)
-	got := vhFromEngineTemplate(engine, vhToUrl(engine, s))
+	raw := vhToUrl(engine, s)
+	got := vhFromEngineTemplate(engine, raw)
 	symxRecord("url", s, got)
+	if engine != 2 && engine != 3 {
+		// gin, echo and fiber know parameters as ":name": a "{name}" left in the registered path is a literal segment
+		for i := 0; i < len(raw); i++ {
+			symxAssert(raw[i] != '{' && raw[i] != '}', "C02.url.every-parameter-is-registered-in-the-engine's-syntax")
+		}
+	}
 	symxCover("C02.url.compared")
 	hasDoubled := false
 	for i := 0; i+1 < len(s); i++ {
